@@ -11,6 +11,13 @@ package http
 //@ requires w != nil && w.client != nil
 // a hand-off counts as delivered only when the receiver answered 200 (C08: anything else is retried)
 //@ site return assert result1 == nil ==> result0 == (res.StatusCode == 200)
+// the message is posted to the receiver's own url with the receiver's own headers (C20, C19: a receiver
+// description is used exactly as supplied): the decoded header map is replaced only when there is none, every
+// entry of it is set on the request, and nothing but the content type is set after them
+//@ site store Headers assert [C19 C20] old == nil
+//@ site store Url assert [C19 C20] false
+//@ site call Set assert [C19 C20] (key == "Content-Type" && value == "application/json") || (has_key(httpData.Headers, key) && httpData.Headers[key] == value)
+//@ site call NewRequest assert [C19 C20] method == "POST" && url == httpData.Url
 
 // Enqueue accepts a submission exactly when it was put on the queue (C12: a submission reported accepted is
 // processed and answered by the worker; one reported refused is answered with queue-full by the caller; never
